@@ -2,9 +2,11 @@ package main
 
 import (
 	"fmt"
+	"go/ast"
 	"go/constant"
 	"go/token"
 	"go/types"
+	"os"
 	"regexp"
 	"sort"
 	"strconv"
@@ -73,12 +75,20 @@ type frame struct {
 	tags    []string
 	root    *frame
 	// labelled states (root only)
-	lockSt    *State
-	freshOnly map[string]bool
-	explicitW map[string]bool
-	notAlloc  map[string]bool
-	npBump    bool
-	pinv      map[*ssa.BasicBlock]*pendInv
+	lockSt      *State
+	entrySt     *State
+	wOverride   string
+	curHeader   *ssa.BasicBlock
+	inFacts     int
+	freshOnly   map[string]bool
+	frameOK     map[string]bool
+	explicitW   map[string]bool
+	notAlloc    map[string]bool
+	badIdx      map[string]bool
+	idxTerms    map[string][]string
+	nonFreshIdx map[string][]string
+	npBump      bool
+	pinv        map[*ssa.BasicBlock]*pendInv
 }
 
 func (f *frame) W() *World { return f.e.w }
@@ -162,6 +172,32 @@ func pow2(n uint) string {
 }
 
 // facts returns well-formedness facts of a value of Go type t (ranges, slice shape, allocation bound).
+// factsFrom is facts for a value loaded from heap `heap` at object `idx`: if that heap has not been
+// written since the root function was entered and the object existed at entry, the value was already
+// stored at entry, hence it was allocated before entry too.
+func (f *frame) factsFrom(x string, t types.Type, st *State, heap, idx string) string {
+	base := f.facts(x, t, st)
+	root := f.root
+	if root == nil || root.entrySt == nil || heap == "" || idx == "" || f.e.ver(st, heap) != f.e.ver(root.entrySt, heap) {
+		return base
+	}
+	w0 := heapName("W", f.e.ver(root.entrySt, "W"))
+	f.e.declConst(w0, "Int")
+	f.e.declFun("owner", []string{"Int"}, "Int")
+	f.wOverride = w0
+	old := f.facts(x, t, st)
+	f.wOverride = ""
+	return and(base, implies("(<= (owner "+idx+") "+w0+")", old))
+}
+
+func (f *frame) wTerm(st *State) string {
+	if f.wOverride != "" {
+		f.e.declConst(f.wOverride, "Int")
+		return f.wOverride
+	}
+	return f.e.H(st, "W", "Int")
+}
+
 func (f *frame) facts(x string, t types.Type, st *State) string {
 	e := f.e
 	switch u := t.Underlying().(type) {
@@ -188,16 +224,38 @@ func (f *frame) facts(x string, t types.Type, st *State) string {
 		}
 		return "true"
 	case *types.Pointer, *types.Map, *types.Chan:
-		w := e.H(st, "W", "Int")
-		return and("(<= 0 "+x+")", "(<= "+x+" "+w+")")
+		w := f.wTerm(st)
+		e.declFun("owner", []string{"Int"}, "Int")
+		base := and("(<= 0 (owner "+x+"))", "(<= (owner "+x+") "+w+")", "(= (owner 0) 0)")
+		if pt, ok := u.(*types.Pointer); ok && len(e.db.typeinv) > 0 && f.inFacts < 3 {
+			if _, isS := pt.Elem().Underlying().(*types.Struct); isS {
+				if inv := e.db.typeinv[e.structKey(pt.Elem())]; inv != nil {
+					f.inFacts++
+					env := &specEnv{f: f, vars: map[string]T{"self": {x, "Int", t}}, cur: st, old: st, pkg: e.db.typeinvP[e.structKey(pt.Elem())], nbound: 1}
+					if it, err := env.evalBool(inv); err == nil {
+						base = and(base, implies("(not (= "+x+" 0))", it))
+					}
+					f.inFacts--
+				}
+			}
+		}
+		return base
 	case *types.Signature:
 		return "true"
 	case *types.Interface:
-		w := e.H(st, "W", "Int")
-		return and("(<= 0 (ityp "+x+"))", "(=> (= (ityp "+x+") 0) (= (ival "+x+") 0))", "(<= (ival "+x+") "+w+")")
+		w := f.wTerm(st)
+		e.declFun("owner", []string{"Int"}, "Int")
+		base := and("(<= 0 (ityp "+x+"))", "(=> (= (ityp "+x+") 0) (= (ival "+x+") 0))", "(<= (owner (ival "+x+")) "+w+")")
+		if isModuleType(t) {
+			// A-NOTYPEDNIL: values of the module's own interface types never wrap a nil pointer
+			e.declFun("ptrtype", []string{"Int"}, "Bool")
+			base = and(base, "(=> (and (not (= (ityp "+x+") 0)) (ptrtype (ityp "+x+"))) (not (= (ival "+x+") 0)))")
+		}
+		return base
 	case *types.Slice:
-		w := e.H(st, "W", "Int")
-		return and("(<= 0 (sarr "+x+"))", "(<= (sarr "+x+") "+w+")", "(<= 0 (soff "+x+"))", "(<= 0 (slen "+x+"))",
+		w := f.wTerm(st)
+		e.declFun("owner", []string{"Int"}, "Int")
+		return and("(<= 0 (owner (sarr "+x+")))", "(<= (owner (sarr "+x+")) "+w+")", "(= (owner 0) 0)", "(<= 0 (soff "+x+"))", "(<= 0 (slen "+x+"))",
 			"(<= (slen "+x+") (scap "+x+"))", "(=> (= (sarr "+x+") 0) (= (scap "+x+") 0))", "(< (scap "+x+") 4611686018427387904)")
 	case *types.Struct:
 		k := e.sortOf(t)
@@ -263,7 +321,7 @@ func (f *frame) val(v ssa.Value, st *State) T {
 		e.addDecl("globfact@"+n, "(assert (< "+n+" 0))")
 		el := c.Type().(*types.Pointer).Elem()
 		if _, ok := el.Underlying().(*types.Struct); !ok {
-			f.addrs[v] = primAddr{"P_" + sanitize(e.sortOf(el)), e.sortOf(el), n}
+			f.addrs[v] = primAddr{"P_" + sanitize(e.sortOf(el)), "(Array Int " + e.sortOf(el) + ")", n}
 		}
 		return T{n, "Int", c.Type()}
 	case *ssa.Builtin:
@@ -298,9 +356,18 @@ func (f *frame) subRef(S types.Type, i int, base string) string {
 	key := f.e.structKey(S)
 	st := S.Underlying().(*types.Struct)
 	fn := "sub_" + key + "_" + st.Field(i).Name()
-	f.e.declFun(fn, []string{"Int"}, "Int")
-	f.e.declFun(fn+"_inv", []string{"Int"}, "Int")
+	e := f.e
+	e.declFun(fn, []string{"Int"}, "Int")
+	e.declFun(fn+"_inv", []string{"Int"}, "Int")
+	e.declFun("owner", []string{"Int"}, "Int")
+	e.declFun("subtag", []string{"Int"}, "Int")
 	t := "(" + fn + " " + base + ")"
+	if strings.Contains(base, "!q") || strings.HasPrefix(base, "fr") {
+		return t // under a quantifier: no instantiated facts
+	}
+	// a sub-object belongs to its parent: same owner, distinct from nil and from sibling sub-objects
+	e.addDecl("subfact@"+t, fmt.Sprintf("(assert (and (= (owner %s) (owner %s)) (not (= %s 0)) (= (%s_inv %s) %s) (= (subtag %s) %d)))",
+		t, base, t, fn, t, base, t, e.funcID("subtag:"+fn)))
 	return t
 }
 
@@ -405,7 +472,8 @@ func (f *frame) alloc(st *State) string {
 	e := f.e
 	w := e.H(st, "W", "Int")
 	a := e.fresh("a", "Int")
-	e.assume("(= " + a + " (+ " + w + " 1))")
+	e.declFun("owner", []string{"Int"}, "Int")
+	e.assume("(and (= " + a + " (+ " + w + " 1)) (= (owner " + a + ") " + a + "))")
 	e.setHeap(st, "W", "Int", a)
 	return a
 }
@@ -431,8 +499,14 @@ func (f *frame) elemHeap(el types.Type) (string, string) {
 }
 
 func (f *frame) elemRef(el types.Type, arr, idx string) string {
-	f.e.declFun("elemref", []string{"Int", "Int"}, "Int")
-	return "(elemref " + arr + " " + idx + ")"
+	e := f.e
+	e.declFun("elemref", []string{"Int", "Int"}, "Int")
+	e.declFun("owner", []string{"Int"}, "Int")
+	t := "(elemref " + arr + " " + idx + ")"
+	if !strings.Contains(t, "!q") {
+		e.addDecl("elemfact@"+t, fmt.Sprintf("(assert (and (= (owner %s) (owner %s)) (not (= %s 0))))", t, arr, t))
+	}
+	return t
 }
 
 // readLoc loads a value of type t from pointer value p.
@@ -478,7 +552,7 @@ func (f *frame) guardCheck(a Addr, at ssa.Value, st *State, kind string) {
 // protect registers a reference loaded from a field owned by the root's package.
 func (f *frame) protect(t T) {
 	e := f.e
-	if t.Go == nil || e.protSet[t.S] {
+	if t.Go == nil || e.protSet[t.S] || strings.Contains(t.S, "!q") {
 		return
 	}
 	switch t.Go.Underlying().(type) {
@@ -697,6 +771,7 @@ func (f *frame) loopBlocks(li *loopInfo) []*ssa.BasicBlock {
 func (f *frame) enterLoop(b *ssa.BasicBlock, li *loopInfo, phis []*ssa.Phi, in []edgeFrom, st *State,
 	rc *runCtx, phiVal func(*ssa.Phi, *ssa.BasicBlock, *State) T) {
 	e := f.e
+	f.curHeader = b
 	// 1. entry values of phis (merged over forward edges)
 	entry := map[*ssa.Phi]T{}
 	for _, p := range phis {
@@ -725,11 +800,32 @@ func (f *frame) enterLoop(b *ssa.BasicBlock, li *loopInfo, phis []*ssa.Phi, in [
 	}
 	// 3. probe: which heaps does one iteration modify?
 	changed := f.probeLoop(b, li, phis, st)
+	f.frameOK = f.inferFrames(b, li, phis, st, changed, invs, entry)
 	// 4. havoc
 	for _, p := range phis {
 		f.vals[p] = f.freshVal("loopphi", p.Type(), st)
 		delete(f.addrs, p)
 	}
+	f.havocChanged(st, changed)
+	// 5. assume invariants
+	for _, iv := range invs {
+		var t string
+		if iv.auto {
+			t = iv.autoTerm(f, entry)
+		} else {
+			t = f.evalLoopInv(iv, st, st)
+		}
+		e.assume(implies(st.cond, t))
+	}
+	// remember invariants for the back edges
+	f.pendingInv(b, invs, entry)
+}
+
+// havocChanged havocs the heaps in `changed` (as computed by a probe of a loop body or a closure),
+// keeping what the probe's write log shows to be untouched: objects allocated before the construct
+// when a heap is only written at objects the construct allocates itself or at fixed, named objects.
+func (f *frame) havocChanged(st *State, changed []string) {
+	e := f.e
 	pre := st.clone()
 	for _, name := range changed {
 		if name == "W" {
@@ -755,29 +851,78 @@ func (f *frame) enterLoop(b *ssa.BasicBlock, li *loopInfo, phis []*ssa.Phi, in [
 		e.havoc(st, name)
 		if strings.HasPrefix(e.heapSort[name], "(Array Int ") && !changedClass(changed, e.class(name)) && !strings.HasPrefix(name, "*") {
 			srt := e.heapSort[name]
-			bound := ""
-			if f.freshOnly[name] {
-				bound = e.H(pre, "W", "Int") // written only at objects allocated by the writing iteration
-			} else if !f.notAlloc[name] {
-				bound = heapName("W", 0) // written only at objects allocated since the root function was entered
+			bound, excl := "", ""
+			// every write goes to an object allocated by the writing iteration (fresh) or to an object
+			// named by a term that is fixed across iterations: all other pre-existing objects are untouched
+			if !f.badIdx[name] {
+				ok := true
+				seen := map[string]bool{}
+				for _, it := range f.nonFreshIdx[name] {
+					if !e.termDeclared(it) {
+						ok = false
+						break
+					}
+					if !seen[it] {
+						seen[it] = true
+						excl += " (not (= fr " + it + "))"
+					}
+				}
+				if ok {
+					bound = e.H(pre, "W", "Int")
+				} else {
+					excl = ""
+				}
+			}
+			if bound == "" && (!f.notAlloc[name] || f.frameOK[name]) {
+				// written only at objects allocated since the root function was entered
+				// (syntactically evident, or proved inductive by inferFrames)
+				bound = heapName("W", 0)
 			}
 			if bound != "" {
-				e.assume(implies(st.cond, "(forall ((fr Int)) (=> (<= fr "+bound+") (= (select "+e.H(st, name, srt)+" fr) (select "+e.H(pre, name, srt)+" fr))))"))
+				e.declFun("owner", []string{"Int"}, "Int")
+				e.assume(implies(st.cond, "(forall ((fr Int)) (=> (and (<= (owner fr) "+bound+")"+excl+") (= (select "+e.H(st, name, srt)+" fr) (select "+e.H(pre, name, srt)+" fr))))"))
 			}
 		}
 	}
-	// 5. assume invariants
-	for _, iv := range invs {
-		var t string
-		if iv.auto {
-			t = iv.autoTerm(f, entry)
-		} else {
-			t = f.evalLoopInv(iv, st, st)
+}
+
+// analyseWrites classifies the write log of a probe (entries from wlogStart on).
+func (f *frame) analyseWrites(wlogStart int, nfreshAtStart int, changedSet map[string]bool) {
+	e := f.e
+	f.freshOnly = map[string]bool{}
+	f.explicitW = map[string]bool{}
+	f.notAlloc = map[string]bool{}
+	f.badIdx = map[string]bool{}
+	f.idxTerms = map[string][]string{}
+	f.nonFreshIdx = map[string][]string{}
+	f.npBump = false
+	notFresh := map[string]bool{}
+	for _, wr := range e.wlog[wlogStart:] {
+		if wr.name == "*np" {
+			f.npBump = true
+			continue
 		}
-		e.assume(implies(st.cond, t))
+		if !isFreshIdx(wr.idx, nfreshAtStart) {
+			f.explicitW[wr.name] = true
+			notFresh[wr.name] = true
+			if wr.idx != "?" {
+				f.nonFreshIdx[wr.name] = append(f.nonFreshIdx[wr.name], wr.idx)
+			}
+		}
+		if !isFreshIdx(wr.idx, 0) {
+			f.notAlloc[wr.name] = true
+			if wr.idx == "?" {
+				f.badIdx[wr.name] = true
+			} else {
+				f.idxTerms[wr.name] = append(f.idxTerms[wr.name], wr.idx)
+			}
+		}
 	}
-	// remember invariants for the back edges
-	f.pendingInv(b, invs, entry)
+	for k := range changedSet {
+		if !notFresh[k] && !strings.HasPrefix(k, "*") {
+			f.freshOnly[k] = true
+		}
+	}
 }
 
 func changedClass(changed []string, c int) bool {
@@ -882,8 +1027,61 @@ func (f *frame) loopInvariants(b *ssa.BasicBlock, li *loopInfo, phis []*ssa.Phi)
 	return out
 }
 
+// localsAt binds source-level local variable names to the SSA values that hold them at block b
+// (from the DebugRef instructions of blocks dominating b; later definitions win).
+func (f *frame) localsAt(b *ssa.BasicBlock, env *specEnv) {
+	for _, blk := range f.rpo {
+		if !blk.Dominates(b) {
+			continue
+		}
+		for _, ins := range blk.Instrs {
+			dr, ok := ins.(*ssa.DebugRef)
+			if !ok || dr.IsAddr {
+				continue
+			}
+			id, ok := dr.Expr.(*ast.Ident)
+			if !ok {
+				continue
+			}
+			if t, ok := f.vals[dr.X]; ok {
+				if _, isParam := dr.X.(*ssa.Parameter); isParam {
+					continue
+				}
+				if _, exists := env.vars[id.Name]; exists {
+					if _, isPhi := dr.X.(*ssa.Phi); !isPhi {
+						// keep parameters and phis bound by name; otherwise the later definition wins
+						if _, wasParam := f.paramNames()[id.Name]; wasParam {
+							continue
+						}
+					}
+				}
+				env.vars[id.Name] = t
+			}
+		}
+	}
+}
+
+func (f *frame) paramNames() map[string]bool {
+	m := map[string]bool{}
+	for _, p := range f.fn.Params {
+		m[p.Name()] = true
+	}
+	return m
+}
+
 func (f *frame) evalLoopInv(iv loopInv, cur, old *State) string {
 	env := f.specEnv(cur)
+	if f.curHeader != nil {
+		f.localsAt(f.curHeader, env)
+		// header phis take precedence
+		for _, ins := range f.curHeader.Instrs {
+			if p, ok := ins.(*ssa.Phi); ok && p.Comment != "" {
+				if t, ok := f.vals[p]; ok {
+					env.vars[p.Comment] = t
+				}
+			}
+		}
+	}
 	t, err := env.evalBool(iv.spec)
 	if err != nil {
 		f.e.note("loop invariant eval error: " + err.Error())
@@ -937,32 +1135,7 @@ func (f *frame) probeLoop(b *ssa.BasicBlock, li *loopInfo, phis []*ssa.Phi, st *
 			}
 		}
 	}
-	// heaps written only at objects allocated inside the iteration that writes them
-	f.freshOnly = map[string]bool{}
-	f.explicitW = map[string]bool{}
-	f.notAlloc = map[string]bool{}
-	f.npBump = false
-	notFresh := map[string]bool{}
-	for _, wr := range e.wlog[wlogStart:] {
-		if wr.name == "*np" {
-			f.npBump = true
-			continue
-		}
-		if !isFreshIdx(wr.idx, snap.nfresh) {
-			f.explicitW[wr.name] = true
-		}
-		if !isFreshIdx(wr.idx, 0) {
-			f.notAlloc[wr.name] = true
-		}
-		if !isFreshIdx(wr.idx, snap.nfresh) {
-			notFresh[wr.name] = true
-		}
-	}
-	for k := range changedSet {
-		if !notFresh[k] && !strings.HasPrefix(k, "*") {
-			f.freshOnly[k] = true
-		}
-	}
+	f.analyseWrites(wlogStart, snap.nfresh, changedSet)
 	if e.probe == 1 {
 		e.wlog = e.wlog[:wlogStart]
 	}
@@ -976,6 +1149,158 @@ func (f *frame) probeLoop(b *ssa.BasicBlock, li *loopInfo, phis []*ssa.Phi, st *
 	}
 	sort.Strings(out)
 	return out
+}
+
+// frameCandidates: heaps changed by the loop for which no syntactic frame rule applies.
+func (f *frame) frameCandidates(changed []string) []string {
+	e := f.e
+	var out []string
+	for _, name := range changed {
+		if strings.HasPrefix(name, "*") || name == "W" || name == "EXCL" {
+			continue
+		}
+		if !strings.HasPrefix(e.heapSort[name], "(Array Int ") || changedClass(changed, e.class(name)) {
+			continue
+		}
+		if f.freshOnly[name] || !f.notAlloc[name] {
+			continue
+		}
+		if !f.badIdx[name] {
+			all := true
+			for _, it := range f.nonFreshIdx[name] {
+				if !e.termDeclared(it) {
+					all = false
+				}
+			}
+			if all {
+				continue // the syntactic rule of havocChanged applies
+			}
+		}
+		out = append(out, name)
+	}
+	return out
+}
+
+func (e *Enc) frameTerm(cur, pre *State, name string) string {
+	srt := e.heapSort[name]
+	e.declFun("owner", []string{"Int"}, "Int")
+	return "(forall ((fr Int)) (=> (<= (owner fr) " + heapName("W", 0) + ") (= (select " + e.H(cur, name, srt) + " fr) (select " + e.H(pre, name, srt) + " fr))))"
+}
+
+// inferFrames finds, Houdini style, the heaps for which "objects allocated before the root function
+// was entered keep their contents" is an inductive invariant of the loop: the candidates are assumed
+// at the header, the body is executed in probe mode, and each candidate is checked at the back edges
+// by the solver; failing candidates are dropped and the check repeated.
+func (f *frame) inferFrames(b *ssa.BasicBlock, li *loopInfo, phis []*ssa.Phi, st *State, changed []string,
+	invs []loopInv, entry map[*ssa.Phi]T) map[string]bool {
+	e := f.e
+	ok := map[string]bool{}
+	cands := f.frameCandidates(changed)
+	if len(cands) == 0 || e.probe > 1 || os.Getenv("GOVC_NO_HOUDINI") != "" {
+		return ok
+	}
+	// keep the write classification of the outer probe
+	sFresh, sExp, sNot, sBad, sIdx, sNp := f.freshOnly, f.explicitW, f.notAlloc, f.badIdx, f.idxTerms, f.npBump
+	restore := func() {
+		f.freshOnly, f.explicitW, f.notAlloc, f.badIdx, f.idxTerms, f.npBump = sFresh, sExp, sNot, sBad, sIdx, sNp
+	}
+	for iter := 0; iter < 4 && len(cands) > 0; iter++ {
+		snap := e.snap()
+		wl := len(e.wlog)
+		e.probe++
+		savedRets, savedDefers := len(f.rets), len(f.defers)
+		hs := st.clone()
+		for _, p := range phis {
+			f.vals[p] = f.freshVal("hphi", p.Type(), hs)
+			delete(f.addrs, p)
+		}
+		restore()
+		f.frameOK = map[string]bool{}
+		for _, c := range cands {
+			f.frameOK[c] = true
+		}
+		f.havocChanged(hs, changed)
+		for _, iv := range invs {
+			var t string
+			if iv.auto {
+				t = iv.autoTerm(f, entry)
+			} else {
+				t = f.evalLoopInv(iv, hs, hs)
+			}
+			e.assume(implies(hs.cond, t))
+		}
+		prc := &runCtx{edges: map[*ssa.BasicBlock][]edgeFrom{}, within: li.body, header: b}
+		f.execBlock(b, hs.clone(), prc)
+		var rest []*ssa.BasicBlock
+		for _, x := range f.loopBlocks(li) {
+			if x != b {
+				rest = append(rest, x)
+			}
+		}
+		f.runBlocks(rest, prc)
+		// one incremental script for all candidates
+		var sb strings.Builder
+		sb.WriteString(prelude)
+		for _, d := range e.decls {
+			sb.WriteString(d)
+			sb.WriteByte('\n')
+		}
+		for _, it := range e.items {
+			if it.ob == nil {
+				sb.WriteString(it.assert)
+				sb.WriteByte('\n')
+			}
+		}
+		var goals []string
+		for _, c := range cands {
+			var gs []string
+			for _, be := range prc.back {
+				gs = append(gs, implies(be.cond, e.frameTerm(be.st, st, c)))
+			}
+			goals = append(goals, and(gs...))
+		}
+		// frameTerm may have declared heap versions after the declarations were written: re-render
+		sb.Reset()
+		sb.WriteString(prelude)
+		for _, d := range e.decls {
+			sb.WriteString(d)
+			sb.WriteByte('\n')
+		}
+		for _, it := range e.items {
+			if it.ob == nil {
+				sb.WriteString(it.assert)
+				sb.WriteByte('\n')
+			}
+		}
+		for _, g := range goals {
+			sb.WriteString("(push 1)\n(assert (not " + g + "))\n(check-sat)\n(pop 1)\n")
+		}
+		ans, _, _ := runSolver(&solvers[0], sb.String(), 3000, len(goals))
+		var keep []string
+		for i, c := range cands {
+			if i < len(ans) && ans[i] == "unsat" {
+				keep = append(keep, c)
+			}
+		}
+		e.probe--
+		if e.probe == 0 {
+			e.wlog = e.wlog[:wl]
+		}
+		e.rollback(snap)
+		f.rets, f.defers = f.rets[:savedRets], f.defers[:savedDefers]
+		if os.Getenv("GOVC_DEBUG") != "" {
+			fmt.Fprintf(os.Stderr, "inferFrames %s loop%d iter %d: cands=%v answers=%v keep=%v backedges=%d\n", relName(f.fn), li.ord, iter, cands, ans, keep, len(prc.back))
+		}
+		if len(keep) == len(cands) {
+			break
+		}
+		cands = keep
+	}
+	restore()
+	for _, c := range cands {
+		ok[c] = true
+	}
+	return ok
 }
 
 // execBlock runs the non-phi instructions of b and records outgoing edges.
@@ -1005,6 +1330,10 @@ func (f *frame) execBlock(b *ssa.BasicBlock, st *State, rc *runCtx) {
 			f.rets = append(f.rets, retEdge{st.cond, st.clone(), vs, rp})
 			return
 		case *ssa.Panic:
+			if f.ct != nil && f.ct.PanicAssumed {
+				f.e.assumed["documented panic of "+f.ct.Rel+" assumed unreachable under its requires (trusted numeric link)"] = true
+				return
+			}
 			f.safety(i, "panic", st, "false")
 			return
 		default:
@@ -1044,6 +1373,7 @@ func (f *frame) checkBackEdge(from, to *ssa.BasicBlock, cond string, st *State) 
 		return
 	}
 	li := f.loops[to]
+	f.curHeader = to
 	// bind phis to their back-edge values
 	saved := map[*ssa.Phi]T{}
 	idx := f.predIndex(to, from)
